@@ -1,8 +1,27 @@
 package types
 
 import (
+	"math/big"
+
 	"cosmossdk.io/math"
 )
+
+// maxWorthBidAmount bounds the amount a worth bid converts to; it is far above any selling amount.
+var maxWorthBidAmount = math.NewIntFromBigInt(new(big.Int).Lsh(big.NewInt(1), 255))
+
+// worthBidAmount returns how many selling coins the paying amount worth buys at price, rounded down.
+// It is computed on big integers: the quotient of a large worth and a small price exceeds the range of
+// LegacyDec, whose QuoTruncate panics with "Int overflow", although the matched amount - the minimum of
+// the quotient and the bidder's allowance - does not. Matching runs in the begin blocker, where such a
+// panic halts the chain. A quotient beyond the Int range is clamped.
+func worthBidAmount(worth math.Int, price math.LegacyDec) math.Int {
+	q := new(big.Int).Mul(worth.BigInt(), math.LegacyOneDec().BigInt())
+	q.Quo(q, price.BigInt())
+	if q.BitLen() > 255 {
+		return maxWorthBidAmount
+	}
+	return math.NewIntFromBigInt(q)
+}
 
 type MatchResult struct {
 	MatchPrice          math.LegacyDec
@@ -38,7 +57,7 @@ func Match(matchPrice math.LegacyDec, prices []math.LegacyDec, bidsByPrice map[s
 			var bidAmt math.Int
 			switch bid.Type {
 			case BidTypeBatchWorth:
-				bidAmt = math.LegacyNewDecFromInt(bid.Coin.Amount).QuoTruncate(matchPrice).TruncateInt()
+				bidAmt = worthBidAmount(bid.Coin.Amount, matchPrice)
 			case BidTypeBatchMany:
 				bidAmt = bid.Coin.Amount
 			}
